@@ -104,6 +104,10 @@ func (w *ndWriter) Close() error {
 	return w.f.Close()
 }
 
+func writeFile(path string, b []byte) error { return os.WriteFile(path, b, 0o644) }
+
+func readFile(path string) ([]byte, error) { return os.ReadFile(path) }
+
 func atoi(s string) int {
 	n, err := strconv.Atoi(s)
 	if err != nil {
